@@ -5,3 +5,4 @@ import TjdLemmas.AutojacLemmas
 import TjdLemmas.MtlLemmas
 import TjdLemmas.C06Lemmas
 import TjdLemmas.C12Lemmas
+import TjdLemmas.C13Lemmas
